@@ -26,6 +26,7 @@ class H:
                 c[k] = ("v", k)
             else:
                 c.get(k)
+        c._mutex = GhostLock()      # same lock, with the contract's ghost flags readable
         fn = getattr(c, self.meth)
         key = desc["key"]
         if self.has_value:
